@@ -77,8 +77,8 @@ def check(ix, rep):
             continue
         rep.analysed(kf)
         nst += SS.check_function(ix, rep, kf, opn, slot_prefix='dense-offline:')
-        SS.check_build(ix, rep, kf, opn, slot_prefix='dense-offline:')
-        SS.check_output(ix, rep, kf, opn, slot_prefix='dense-offline:')
+        SS.check_build(ix, rep, kf, opn, slot_prefix='dense-offline:', origin=True)
+        SS.check_output(ix, rep, kf, opn, slot_prefix='dense-offline:', origin=True)
     rep.floor('abstract states of the sliding-window merge step', nst, 72)
     # output compression never drops the first sample
     allf = list(m.functions.values()) + [g for c in m.classes.values() for g in c.methods.values()]
